@@ -119,10 +119,20 @@ const (
 	opGenDecode    = "gen-decode"     // generated Decode(stream.Reader) over a segmented reader
 	opDecodeReqRaw = "decode-request" // DecodeRequest (random-access twin of ReadRequest)
 	opStreamSkip   = "stream-skip"    // stream reader over a segmented reader, Skip()ing a drawn subset of the fields
+	opDecodeEval   = "decode-eval"    // binary.Default.Decode + wire.EvaluateValue (iterates and closes everything)
 )
 
 var allOpKinds = []string{opEncode, opDecode, opStreamWrite, opStreamRead, opEncEnv, opDecEnv, opReadRequest,
-	opGenToWire, opGenEncode, opGenFromWire, opGenDecode, opDecodeReqRaw, opStreamSkip}
+	opGenToWire, opGenEncode, opGenFromWire, opGenDecode, opDecodeReqRaw, opStreamSkip, opDecodeEval}
+
+// bigDecodeKinds are the kinds a big binary is decoded through (every one of
+// them ends in the stream reader); badKinds are the kinds that may be given an
+// input whose forcing fails.
+var (
+	bigDecodeKinds = []string{opStreamRead, opStreamRead, opGenDecode, opGenDecode, opReadRequest, opReadRequest, opDecode, opDecEnv, opDecodeReqRaw, opGenFromWire, opStreamSkip}
+	bigOtherKinds  = []string{opEncode, opStreamWrite, opEncEnv, opGenEncode, opGenToWire, opDecodeEval}
+	badKinds       = map[string]bool{opDecode: true, opDecodeEval: true, opDecEnv: true, opDecodeReqRaw: true, opStreamRead: true, opReadRequest: true, opGenFromWire: true, opGenDecode: true}
+)
 
 // Op is one drawn operation with its value; everything needed to re-run it.
 type Op struct {
@@ -140,6 +150,25 @@ type Op struct {
 	Skip uint64 `json:"skip,omitempty"`
 	// yield mask for the concurrent run (0 = never yield)
 	Yield uint64 `json:"yield,omitempty"`
+	// Big: the value is withBig(W, Big) -- a struct that also holds a binary longer than 1 MiB
+	Big *Big `json:"big,omitempty"`
+	// Bad: the input is spoiled so that Decode accepts it and forcing fails (decoding kinds only)
+	Bad *Poison `json:"bad,omitempty"`
+}
+
+// big reports whether the operation carries a binary longer than 1 MiB.
+func (op Op) big() bool { return op.Big != nil || (op.Gen != nil && op.Gen.Big != nil) }
+
+// errPath reports whether the operation is expected to fail (its input is bad).
+func (op Op) errPath() bool {
+	if op.Bad == nil || !badKinds[op.Kind] {
+		return false
+	}
+	if op.Gen != nil {
+		w, err := toW(op.Gen.build())
+		return err == nil && stripCandidates(w, false) > 0
+	}
+	return op.W != nil && (poisonable(*op.W) || (op.Big != nil && op.Big.At == "map-key"))
 }
 
 // CodecCase is one case of unit "codec".
@@ -169,6 +198,28 @@ type prepared struct {
 	orig   genValue // generated kinds: the built value
 	semCmp bool     // compare W results up to map/set order (generated kinds)
 	base   result   // the sequential baseline
+	val    wm.W     // the value the operation works on: withBig(op.W, op.Big)
+	bad    bool     // the input is bad: the operation must fail, alone and in company
+}
+
+// spoil replaces the body (the tail of input) by its poisoned encoding.
+func (p *prepared) spoil() error {
+	if p.op.Bad == nil {
+		return nil
+	}
+	clean := refcodec.Encode(p.val)
+	if !bytes.HasSuffix(p.input, clean) {
+		return ev.Errf("harness/poison", "the input of %s does not end with the encoding of its value", p.op.Kind)
+	}
+	enc, ok, err := poisonEncoding(p.val, p.op.Bad)
+	if err != nil {
+		return ev.Errf("harness/poison", "%s: %v", p.op.Kind, err)
+	}
+	if ok {
+		p.input = append(p.input[:len(p.input)-len(clean):len(p.input)-len(clean)], enc...)
+		p.bad = true
+	}
+	return nil
 }
 
 func hdr(framing, name string, typ int8, seq int32) string {
@@ -247,19 +298,25 @@ func streamReadSkipping(sr stream.Reader, mask uint64) (wm.W, error) {
 // prepare computes inputs and models; it runs before anything concurrent.
 func prepare(op Op) (*prepared, error) {
 	p := &prepared{op: op}
+	if op.W != nil {
+		p.val = withBig(*op.W, op.Big)
+	}
 	switch op.Kind {
 	case opEncode, opStreamWrite:
-		p.want = refcodec.Encode(*op.W)
-	case opDecode, opStreamRead:
-		p.input = refcodec.Encode(*op.W)
-		p.wantW = *op.W
+		p.want = refcodec.Encode(p.val)
+	case opDecode, opStreamRead, opDecodeEval:
+		p.input = refcodec.Encode(p.val)
+		p.wantW = p.val
+		if err := p.spoil(); err != nil {
+			return nil, err
+		}
 	case opStreamSkip:
-		p.input = refcodec.Encode(*op.W)
-		p.wantW = skipModel(*op.W, op.Skip)
+		p.input = refcodec.Encode(p.val)
+		p.wantW = skipModel(p.val, op.Skip)
 	case opEncEnv:
-		p.want = refcodec.EncodeStrict(refcodec.Envelope{Name: op.Name, Type: op.EType, SeqID: op.SeqID, Body: *op.W})
+		p.want = refcodec.EncodeStrict(refcodec.Envelope{Name: op.Name, Type: op.EType, SeqID: op.SeqID, Body: p.val})
 	case opDecEnv, opReadRequest, opDecodeReqRaw:
-		e := refcodec.Envelope{Name: op.Name, Type: op.EType, SeqID: op.SeqID, Body: *op.W}
+		e := refcodec.Envelope{Name: op.Name, Type: op.EType, SeqID: op.SeqID, Body: p.val}
 		name, seq := string(op.Name), op.SeqID
 		switch op.Framing {
 		case refcodec.FrameStrict:
@@ -267,11 +324,14 @@ func prepare(op Op) (*prepared, error) {
 		case refcodec.FrameLegacy:
 			p.input = refcodec.EncodeLegacy(e)
 		default:
-			p.input = refcodec.Encode(*op.W)
+			p.input = refcodec.Encode(p.val)
 			name, seq = "", 0
 		}
-		p.wantW = *op.W
+		p.wantW = p.val
 		p.wantH = hdr(op.Framing, name, op.EType, seq)
+		if err := p.spoil(); err != nil {
+			return nil, err
+		}
 	case opGenToWire, opGenEncode, opGenFromWire, opGenDecode:
 		p.orig = op.Gen.build()
 		w, err := toW(p.orig)
@@ -281,6 +341,13 @@ func prepare(op Op) (*prepared, error) {
 		p.wantW = w
 		p.input = refcodec.Encode(w)
 		p.semCmp = true
+		if op.Bad != nil && badKinds[op.Kind] {
+			if n := stripCandidates(w, false); n > 0 {
+				k := op.Bad.N % n
+				p.input = refcodec.Encode(stripRequired(w, false, &k))
+				p.bad = true
+			}
+		}
 	default:
 		return nil, ev.Errf("harness/op-kind", "unknown op kind %q", op.Kind)
 	}
@@ -293,26 +360,35 @@ func (p *prepared) exec(y *yielder) (res result, err error) {
 	switch op.Kind {
 	case opEncode:
 		var b bytes.Buffer
-		err = binary.Default.Encode(bridge.ToWire(*op.W), yWriter{&b, y})
+		b.Grow(len(p.want))
+		err = binary.Default.Encode(bridge.ToWire(p.val), yWriter{&b, y})
 		res.bytes = b.Bytes()
 	case opStreamWrite:
 		var b bytes.Buffer
+		b.Grow(len(p.want))
 		sw := binary.Default.Writer(yWriter{&b, y})
-		err = bridge.StreamWrite(sw, *op.W)
+		err = bridge.StreamWrite(sw, p.val)
 		if cerr := sw.Close(); err == nil {
 			err = cerr
 		}
 		res.bytes = b.Bytes()
 	case opDecode:
 		var v wire.Value
-		v, err = binary.Default.Decode(yReaderAt{bytes.NewReader(p.input), y}, wire.Type(op.W.K))
+		v, err = binary.Default.Decode(yReaderAt{bytes.NewReader(p.input), y}, wire.Type(p.val.K))
 		if err == nil {
 			y.tick()
-			res.w, err = bridge.FromWire(v)
+			res.w, err = forceAll(v)
+		}
+	case opDecodeEval:
+		var v wire.Value
+		v, err = binary.Default.Decode(yReaderAt{bytes.NewReader(p.input), y}, wire.Type(p.val.K))
+		if err == nil {
+			y.tick()
+			err = wire.EvaluateValue(v)
 		}
 	case opStreamRead:
 		sr := binary.Default.Reader(planReader(p.input, op.Plan, y))
-		res.w, err = bridge.StreamRead(sr, op.W.K)
+		res.w, err = bridge.StreamRead(sr, p.val.K)
 		if cerr := sr.Close(); err == nil {
 			err = cerr
 		}
@@ -324,7 +400,8 @@ func (p *prepared) exec(y *yielder) (res result, err error) {
 		}
 	case opEncEnv:
 		var b bytes.Buffer
-		err = binary.Default.EncodeEnveloped(wire.Envelope{Name: string(op.Name), Type: wire.EnvelopeType(op.EType), SeqID: op.SeqID, Value: bridge.ToWire(*op.W)}, yWriter{&b, y})
+		b.Grow(len(p.want))
+		err = binary.Default.EncodeEnveloped(wire.Envelope{Name: string(op.Name), Type: wire.EnvelopeType(op.EType), SeqID: op.SeqID, Value: bridge.ToWire(p.val)}, yWriter{&b, y})
 		res.bytes = b.Bytes()
 	case opDecEnv:
 		var e wire.Envelope
@@ -332,7 +409,7 @@ func (p *prepared) exec(y *yielder) (res result, err error) {
 		if err == nil {
 			y.tick()
 			res.hdr = hdr(op.Framing, e.Name, int8(e.Type), e.SeqID)
-			res.w, err = bridge.FromWire(e.Value)
+			res.w, err = forceAll(e.Value)
 		}
 	case opDecodeReqRaw:
 		v, resp, derr := binary.Default.DecodeRequest(wire.EnvelopeType(op.EType), yReaderAt{bytes.NewReader(p.input), y})
@@ -340,7 +417,7 @@ func (p *prepared) exec(y *yielder) (res result, err error) {
 		if err == nil {
 			f, n, s := classify(resp)
 			res.hdr = hdr(f, n, op.EType, s)
-			res.w, err = bridge.FromWire(v)
+			res.w, err = forceAll(v)
 		}
 	case opReadRequest:
 		body := &yBody{y: y}
@@ -406,6 +483,9 @@ func producesBytes(kind string) bool {
 // agrees checks a result against the model (spec bytes / model value).
 // It returns "" or a short reason.
 func (p *prepared) agrees(r result) string {
+	if p.op.Kind == opDecodeEval {
+		return "" // success is all EvaluateValue reports
+	}
 	if producesBytes(p.op.Kind) {
 		if p.want != nil {
 			if !bytes.Equal(r.bytes, p.want) {
@@ -441,6 +521,9 @@ func (p *prepared) agrees(r result) string {
 // sameAsBaseline compares a concurrent result with the sequential baseline.
 func (p *prepared) sameAsBaseline(r result) string {
 	b := p.base
+	if p.op.Kind == opDecodeEval {
+		return ""
+	}
 	if producesBytes(p.op.Kind) {
 		if bytes.Equal(r.bytes, b.bytes) {
 			return ""
@@ -462,9 +545,25 @@ func (p *prepared) sameAsBaseline(r result) string {
 		return fmt.Sprintf("value %s, sequential baseline %s", wm.Render(r.w), wm.Render(b.w))
 	}
 	if b.obj != nil && !reflect.DeepEqual(r.obj, b.obj) {
-		return fmt.Sprintf("generated value %v, sequential baseline %v", r.obj, b.obj)
+		return fmt.Sprintf("generated value %s, sequential baseline %s", clipStr(fmt.Sprint(r.obj), 300), clipStr(fmt.Sprint(b.obj), 300))
 	}
 	return ""
+}
+
+// stillAgrees re-examines, at the end of a case, a result obtained earlier:
+// what an operation returned belongs to its caller and must not change because
+// later operations ran. Generated values are rendered again from the object.
+func (p *prepared) stillAgrees(r result) string {
+	if r.obj != nil {
+		w, err := toW(r.obj.(genValue))
+		if err != nil {
+			return fmt.Sprintf("the generated value no longer converts: %v", err)
+		}
+		if !wm.SemEqual(w, p.wantW) {
+			return fmt.Sprintf("the generated value now renders as %s, want %s", wm.Render(w), wm.Render(p.wantW))
+		}
+	}
+	return p.agrees(r)
 }
 
 func firstDiff(a, b []byte) int {
@@ -491,7 +590,7 @@ func (op Op) render() string {
 	var s string
 	switch {
 	case op.Gen != nil:
-		s = fmt.Sprintf("%s(%s salt=%d strs=%q nums=%v)", op.Kind, op.Gen.Kind, op.Gen.Salt, op.Gen.Strs, op.Gen.Nums)
+		s = fmt.Sprintf("%s(%s salt=%d strs=%q nums=%v%s)", op.Kind, op.Gen.Kind, op.Gen.Salt, op.Gen.Strs, op.Gen.Nums, op.Gen.Big)
 	case op.Framing != "" || op.Kind == opEncEnv:
 		s = fmt.Sprintf("%s(%s name=%q type=%d seq=%d body=%s)", op.Kind, op.Framing, op.Name, op.EType, op.SeqID, wm.Render(*op.W))
 	default:
@@ -499,6 +598,10 @@ func (op Op) render() string {
 	}
 	if len(s) > 200 {
 		s = s[:200] + "…"
+	}
+	s += op.Big.String()
+	if op.Bad != nil {
+		s += fmt.Sprintf(" +bad[n=%d byte=%#x]", op.Bad.N, op.Bad.Byte)
 	}
 	return s
 }
@@ -527,13 +630,20 @@ func checkCodec(c CodecCase) error {
 		ps[i] = p
 	}
 	// phase 1: every operation alone, sequentially; must agree with the model
+	// (an operation on a bad input must fail, with an error)
 	for i, p := range ps {
 		var res result
 		err := ev.Guard(func() (e error) { res, e = p.exec(nil); return })
-		if err != nil {
-			if pe, ok := err.(*ev.PanicError); ok {
-				return ev.Errf("baseline/"+p.op.Kind+"/panic", "op #%d %s panicked when run alone: %s", i, p.op.render(), pe.Error())
+		if pe, ok := err.(*ev.PanicError); ok {
+			return ev.Errf("baseline/"+p.op.Kind+"/panic", "op #%d %s panicked when run alone: %s", i, p.op.render(), pe.Error())
+		}
+		if p.bad {
+			if err == nil {
+				return ev.Errf("baseline/"+p.op.Kind+"/error-missed", "op #%d %s run alone succeeds on an input the reference decoder rejects (got %s)", i, p.op.render(), wm.Render(res.w))
 			}
+			continue
+		}
+		if err != nil {
 			return ev.Errf("baseline/"+p.op.Kind+"/error", "op #%d %s failed when run alone: %v", i, p.op.render(), err)
 		}
 		if why := p.agrees(res); why != "" {
@@ -557,6 +667,7 @@ func checkCodec(c CodecCase) error {
 		key, msg string
 	}
 	fails := make([]*failure, len(ps))
+	last := make([]result, len(ps)) // what the final repetition of each operation returned
 	start := make(chan struct{})
 	var wg sync.WaitGroup
 	for i, p := range ps {
@@ -564,22 +675,34 @@ func checkCodec(c CodecCase) error {
 		go func(i int, p *prepared) {
 			defer wg.Done()
 			<-start
-			for rep := 0; rep < reps; rep++ {
+			n := reps
+			if p.op.big() {
+				n = 1 // every run of a big operation allocates (and, under the race detector, page-faults) megabytes
+			}
+			for rep := 0; rep < n; rep++ {
 				var res result
 				y := &yielder{mask: p.op.Yield}
 				err := ev.Guard(func() (e error) { res, e = p.exec(y); return })
-				if err != nil {
-					if pe, ok := err.(*ev.PanicError); ok {
-						fails[i] = &failure{"concurrent/" + p.op.Kind + "/panic", fmt.Sprintf("op #%d (repetition %d) panicked: %s", i, rep, pe.Error())}
-					} else {
-						fails[i] = &failure{"concurrent/" + p.op.Kind + "/error", fmt.Sprintf("op #%d (repetition %d) failed although it succeeds alone: %v", i, rep, err)}
+				if pe, ok := err.(*ev.PanicError); ok {
+					fails[i] = &failure{"concurrent/" + p.op.Kind + "/panic", fmt.Sprintf("op #%d (repetition %d) panicked: %s", i, rep, pe.Error())}
+					return
+				}
+				if p.bad {
+					if err == nil {
+						fails[i] = &failure{"concurrent/" + p.op.Kind + "/error-missed", fmt.Sprintf("op #%d (repetition %d) succeeds although it fails alone (got %s)", i, rep, wm.Render(res.w))}
+						return
 					}
+					continue
+				}
+				if err != nil {
+					fails[i] = &failure{"concurrent/" + p.op.Kind + "/error", fmt.Sprintf("op #%d (repetition %d) failed although it succeeds alone: %v", i, rep, err)}
 					return
 				}
 				if why := p.sameAsBaseline(res); why != "" {
 					fails[i] = &failure{"concurrent/" + p.op.Kind + "/differs", fmt.Sprintf("op #%d (repetition %d): %s", i, rep, why)}
 					return
 				}
+				last[i] = res
 			}
 		}(i, p)
 	}
@@ -595,9 +718,24 @@ func checkCodec(c CodecCase) error {
 	close(start)
 	wg.Wait()
 	<-gcDone
+	tail := func(i int) string {
+		return fmt.Sprintf("\n op #%d = %s\n GOMAXPROCS=%d R=%d GCs=%d; all %d operations:%s", i, c.Ops[i].render(), procs, reps, c.GCs, len(c.Ops), describeOps(c.Ops))
+	}
 	for i, f := range fails {
 		if f != nil {
-			return ev.Errf(f.key, "%s\n op #%d = %s\n GOMAXPROCS=%d R=%d GCs=%d; all %d operations:%s", f.msg, i, c.Ops[i].render(), procs, reps, c.GCs, len(c.Ops), describeOps(c.Ops))
+			return ev.Errf(f.key, "%s%s", f.msg, tail(i))
+		}
+	}
+	// phase 3: what the operations returned earlier is still what it was
+	for i, p := range ps {
+		if p.bad {
+			continue
+		}
+		if why := p.stillAgrees(p.base); why != "" {
+			return ev.Errf("final/"+p.op.Kind+"/baseline-changed", "the result op #%d returned when run alone was right then and has changed since: %s%s", i, why, tail(i))
+		}
+		if why := p.stillAgrees(last[i]); why != "" {
+			return ev.Errf("final/"+p.op.Kind+"/result-changed", "the result of the last repetition of op #%d equalled the baseline when it was returned and has changed since: %s%s", i, why, tail(i))
 		}
 	}
 	return nil
@@ -617,17 +755,30 @@ func genValueW(t *rapid.T, k wm.Kind, label string) *wm.W {
 	return &w
 }
 
-func genOp(t *rapid.T, i int, kinds []string) Op {
+// genOp draws operation #i. With bad set, a decoding kind gets an input whose
+// forcing fails; with big set, the value carries a binary longer than 1 MiB.
+func genOp(t *rapid.T, i int, kinds []string, bad bool, big *Big) Op {
 	label := fmt.Sprintf("op%d", i)
 	op := Op{Kind: rapid.SampledFrom(kinds).Draw(t, label+"_kind")}
+	bad = bad && badKinds[op.Kind]
+	switch {
+	case bad && op.Gen == nil && (op.Kind == opDecode || op.Kind == opDecodeEval || op.Kind == opStreamRead):
+		op.W, op.Bad = genPoisonable(t, false, label), genPoison(t, label)
+	case bad && (op.Kind == opDecEnv || op.Kind == opReadRequest || op.Kind == opDecodeReqRaw):
+		op.W, op.Bad = genPoisonable(t, true, label), genPoison(t, label)
+	}
 	switch op.Kind {
-	case opEncode, opDecode, opStreamWrite, opStreamRead:
-		op.W = genValueW(t, wm.GenRootKind().Draw(t, label+"_root"), label)
+	case opEncode, opDecode, opStreamWrite, opStreamRead, opDecodeEval:
+		if op.W == nil {
+			op.W = genValueW(t, wm.GenRootKind().Draw(t, label+"_root"), label)
+		}
 	case opStreamSkip:
 		op.W = genValueW(t, wm.KStruct, label)
 		op.Skip = rapid.Uint64().Draw(t, label+"_skip")
 	case opEncEnv, opDecEnv, opReadRequest, opDecodeReqRaw:
-		op.W = genValueW(t, wm.KStruct, label)
+		if op.W == nil {
+			op.W = genValueW(t, wm.KStruct, label)
+		}
 		op.Name = []byte(genIdent(t, label+"_name"))
 		op.SeqID = rapid.Int32().Draw(t, label+"_seq")
 		switch op.Kind {
@@ -649,10 +800,25 @@ func genOp(t *rapid.T, i int, kinds []string) Op {
 		}
 	default:
 		op.Gen = genRecipe(t, label, i)
+		if bad {
+			// recipes whose values hold structs beneath containers
+			op.Gen.Kind = rapid.SampledFrom([]string{"function", "service", "request", "request", "type"}).Draw(t, label+"_badgkind")
+			op.Bad = genPoison(t, label)
+		}
+		if big != nil {
+			op.Gen.Kind = rapid.SampledFrom([]string{"handshake", "response"}).Draw(t, label+"_biggkind")
+			op.Gen.Big = big
+		}
+	}
+	if big != nil && op.Gen == nil {
+		op.Big = big
 	}
 	switch op.Kind {
 	case opStreamRead, opReadRequest, opGenDecode, opStreamSkip:
 		op.Plan = chunkio.GenPlan(t, label+"_plan")
+		if big != nil {
+			op.Plan = bigPlan(t, op.Plan, label)
+		}
 	}
 	return op
 }
@@ -679,6 +845,18 @@ func makeDistinct(ops []Op) {
 		}
 		seen[k] = true
 	}
+}
+
+func countBucket(n int) string {
+	switch {
+	case n == 0:
+		return "0"
+	case n == 1:
+		return "1"
+	case n <= 4:
+		return "2-4"
+	}
+	return "5+"
 }
 
 func kBucket(k int) string {
@@ -742,12 +920,41 @@ func TestConcurrentCodec(t *testing.T) {
 			GCs:   rapid.SampledFrom([]int{0, 0, 1, 2, 3}).Draw(t, "gcs"),
 		}
 		yields := rapid.Bool().Draw(t, "yields")
+		// error paths: in a third of the cases some decoding operations get bad inputs
+		errCase := rapid.IntRange(0, 2).Draw(t, "err_paths") == 0
 		for i := 0; i < k; i++ {
-			op := genOp(t, i, kinds)
+			bad := errCase && rapid.IntRange(0, 2).Draw(t, fmt.Sprintf("op%d_bad", i)) == 0
+			op := genOp(t, i, kinds, bad, nil)
 			if yields {
 				op.Yield = genYield(t, fmt.Sprintf("op%d", i))
 			}
 			c.Ops = append(c.Ops, op)
+		}
+		// big binaries: in one case of thirty-two two or three extra operations (mostly
+		// decoders, whatever the mix) carry a binary or string longer than 1 MiB
+		if rare(t, "big_case", 5) {
+			base := rapid.Byte().Draw(t, "big_fill")
+			budget := maxBigPerCase
+			for n := 0; budget > 0 && n < 3; n++ {
+				i := len(c.Ops)
+				ks := bigDecodeKinds
+				if n > 0 && rapid.IntRange(0, 3).Draw(t, fmt.Sprintf("op%d_bigother", i)) == 0 {
+					ks = bigOtherKinds
+				}
+				b := genBig(t, fmt.Sprintf("op%d", i), base, n, budget)
+				budget -= b.weight()
+				op := genOp(t, i, ks, false, b)
+				if yields {
+					op.Yield = genYield(t, fmt.Sprintf("op%d", i))
+				}
+				c.Ops = append(c.Ops, op)
+			}
+			// big operations need not come last
+			for n := rapid.IntRange(0, 3).Draw(t, "big_swaps"); n > 0; n-- {
+				a := rapid.IntRange(0, len(c.Ops)-1).Draw(t, "swap_a")
+				b := rapid.IntRange(0, len(c.Ops)-1).Draw(t, "swap_b")
+				c.Ops[a], c.Ops[b] = c.Ops[b], c.Ops[a]
+			}
 		}
 		makeDistinct(c.Ops)
 		runCodec(t, c)
@@ -767,6 +974,18 @@ func runCodec(t ev.TB, c CodecCase) {
 	for _, k := range ks {
 		cls = append(cls, "op:"+k)
 	}
+	nBad, nBig := 0, 0
+	for _, op := range c.Ops {
+		if op.errPath() {
+			nBad++
+			cls = append(cls, "bad-input:"+op.Kind)
+		}
+		if op.big() {
+			nBig++
+			cls = append(cls, "big:"+op.Kind)
+		}
+	}
+	cls = append(cls, fmt.Sprintf("bad-inputs:%s", countBucket(nBad)), fmt.Sprintf("big-binaries:%d", nBig))
 	d := ev.DigestJSON(c)
 	ev.Case(d, nontriv, cls...)
 	if nontriv {
